@@ -123,7 +123,8 @@ def run_entry(
             res["outcome"], res["sig"], res["what"] = "bad", f"C02:silent-failure:{entry}", f"exit {r.rc} with empty stderr"
         else:
             res["outcome"] = "error"
-            res["headline"] = re.sub(r"/\S+/meta_model\.py", "<model>", r.stderr.split("\n", 1)[0])[:160]
+            head = re.sub(r"/\S+/meta_model\.py", "<model>", r.stderr.split("\n", 1)[0])
+            res["headline"] = re.sub(r"/\S*/out\d+/", "<out>/", head)[:160]
     return res
 
 
@@ -398,6 +399,441 @@ def edge_models() -> Iterator[Tuple[str, str]]:
         yield f"edge-description-{name}", _edge_description_model(desc)
 
 
+# --------------------------------------------------------------------------- boolean shapes the type inferrer narrows on
+#
+# ``intermediate/type_inference.py:_Inferrer`` keeps a counting map of the expressions known to be non-None while it
+# walks ``or`` (after ``X is None``), ``and`` (after ``X is not None``) and implications (``X is not None`` or a
+# conjunction of them as the antecedent), and releases the entries on leaving the node.  Every SDK generator and the
+# smoke tool run it on every invariant / transpilable body.  The fixtures and ``mm_gen`` only have ONE guard per
+# connective; this family enumerates 2-4 guards over DIFFERENT members in every position, negations, nestings, the
+# same inside ``any``/``all`` (loop variable, index), over a member chain, and in verification functions.
+
+_NARROW_ITEM = '''\
+class Item(DBC):
+    """Represent an item."""
+
+    xx: Optional[str]
+    """Some property."""
+
+    yy: Optional[str]
+    """Some property."""
+
+    zz: Optional[str]
+    """Some property."""
+
+    ww: Optional[str]
+    """Some property."""
+
+    def __init__(
+        self,
+        xx: Optional[str] = None,
+        yy: Optional[str] = None,
+        zz: Optional[str] = None,
+        ww: Optional[str] = None,
+    ) -> None:
+        self.xx = xx
+        self.yy = yy
+        self.zz = zz
+        self.ww = ww
+
+
+'''
+
+_NARROW_THING = '''\
+class Thing(DBC):
+    """Represent something."""
+
+    aa: Optional[str]
+    """Some property."""
+
+    bb: Optional[str]
+    """Some property."""
+
+    cc: Optional[str]
+    """Some property."""
+
+    dd: Optional[str]
+    """Some property."""
+
+    other: Optional[Item]
+    """Some property."""
+
+    items: Optional[List[Item]]
+    """Some property."""
+
+    def __init__(
+        self,
+        aa: Optional[str] = None,
+        bb: Optional[str] = None,
+        cc: Optional[str] = None,
+        dd: Optional[str] = None,
+        other: Optional[Item] = None,
+        items: Optional[List[Item]] = None,
+    ) -> None:
+        self.aa = aa
+        self.bb = bb
+        self.cc = cc
+        self.dd = dd
+        self.other = other
+        self.items = items
+'''
+
+
+def _use(es: Sequence[str]) -> str:
+    """A boolean expression that needs every expression of ``es`` to be narrowed to non-None."""
+    if len(es) == 2:
+        return f"len({es[0]}) <= len({es[1]})"
+    return " + ".join(f"len({e})" for e in es) + " >= 1"
+
+
+def _orders(pool: Sequence[str], k: int) -> List[Tuple[str, ...]]:
+    """k members of the pool such that every member stands at every position (rotations of the k-subsets, reversed ones)."""
+    import itertools
+
+    out: List[Tuple[str, ...]] = []
+    for sub in itertools.combinations(pool, k):
+        for r in range(k):
+            out.append(tuple(sub[r:] + sub[:r]))
+        if k > 2:
+            out.append(tuple(reversed(sub)))
+    return out
+
+
+def narrowing_shapes(pool: Sequence[str]) -> List[Tuple[str, str]]:
+    """(kind, boolean expression) over the Optional[str] expressions ``pool`` (4 distinct ones)."""
+    out: List[Tuple[str, str]] = []
+    isn = lambda e: f"{e} is None"  # noqa: E731
+    inn = lambda e: f"{e} is not None"  # noqa: E731
+    for k in (2, 3, 4):
+        for es in _orders(pool, k):
+            out.append((f"or{k}", " or ".join(map(isn, es)) + " or " + _use(es)))
+            out.append((f"and{k}", " and ".join(map(inn, es)) + " and " + _use(es)))
+            out.append((f"impl{k}", "not (" + " and ".join(map(inn, es)) + ") or " + _use(es)))
+            # the negated forms (De Morgan) of the two n-ary connectives
+            out.append((f"not-or{k}", "not (" + " or ".join(map(isn, es)) + " or not (" + _use(es) + "))"))
+            out.append((f"not-and{k}", "not (" + " and ".join(map(inn, es)) + " and not (" + _use(es) + "))"))
+    a, b, c, d = pool
+    for k in (2, 3, 4):
+        es = list(pool[:k])
+        # guards and uses interleaved: every guard is followed by a use of what is narrowed so far
+        out.append((f"or-mid{k}", " or ".join(f"{isn(e)} or {_use(es[: i + 1])}" for i, e in enumerate(es))))
+        out.append((f"and-mid{k}", " and ".join(f"{inn(e)} and {_use(es[: i + 1])}" for i, e in enumerate(es))))
+        # a conjunction as the antecedent with a conjunct which is not a guard, in every position
+        for at in range(1, k + 1):
+            conj = [inn(e) for e in es]
+            conj.insert(at, f"len({es[at - 1]}) > 2")
+            out.append((f"impl-mixed{k}", "not (" + " and ".join(conj) + ") or " + _use(es)))
+        # the same guard several times (the counting map goes to 2 and back)
+        out.append((f"or-dup{k}", " or ".join(map(isn, es + es[:1])) + " or " + _use(es)))
+        out.append((f"and-dup{k}", " and ".join(map(inn, es[:1] + es)) + " and " + _use(es)))
+        out.append((f"impl-dup{k}", "not (" + " and ".join(map(inn, es + es[-1:])) + ") or " + _use(es)))
+    out.append(("impl1", f"not ({inn(a)}) or len({a}) >= 1"))
+    out.append(("or1", f"{isn(a)} or len({a}) >= 1"))
+    out.append(("and1", f"{inn(a)} and len({a}) >= 1"))
+    # ---- nested mixes
+    nested = [
+        f"{isn(a)} or ({inn(b)} and {inn(c)} and {_use([a, b, c])})",
+        f"{isn(a)} or {isn(b)} or ({inn(c)} and {inn(d)} and {_use([a, b, c, d])})",
+        f"({isn(a)} or {isn(b)} or {_use([a, b])}) and ({isn(c)} or {isn(d)} or {_use([c, d])})",
+        f"({inn(a)} and {inn(b)} and {_use([a, b])}) or ({inn(c)} and {inn(d)} and {_use([c, d])})",
+        f"not ({inn(a)}) or ({isn(b)} or {isn(c)} or {_use([a, b, c])})",
+        f"not ({inn(a)} and {inn(b)}) or (not ({inn(c)} and {inn(d)}) or {_use([a, b, c, d])})",
+        f"not ({inn(a)} and {inn(b)}) or ({isn(c)} or {isn(d)} or {_use([a, b, c, d])})",
+        f"{isn(a)} or {isn(b)} or (not ({inn(c)}) or {_use([a, b, c])})",
+        f"{isn(a)} or {isn(b)} or (not ({inn(c)} and {inn(d)}) or {_use([a, b, c, d])})",
+        f"{inn(a)} and {inn(b)} and ({isn(c)} or {isn(d)} or {_use([a, b, c, d])})",
+        f"{inn(a)} and {inn(b)} and (not ({inn(c)} and {inn(d)}) or {_use([a, b, c, d])})",
+        f"({isn(a)} or {isn(b)} or {_use([a, b])}) or ({isn(c)} or {isn(d)} or {_use([c, d])})",
+        f"not ({isn(a)} or {isn(b)} or {_use([a, b])}) or ({isn(c)} or {isn(d)} or {_use([c, d])})",
+        f"not (not ({inn(a)} and {inn(b)}) or {_use([a, b])}) or ({isn(c)} or {isn(d)} or {_use([c, d])})",
+        f"not ({isn(a)} or {isn(b)} or not ({inn(c)} and {inn(d)} and {_use([a, b, c, d])}))",
+    ]
+    # a guard on what is already narrowed: 'Expected the value to be of an optional type for a nullness check' is REPORTED
+    renarrowed = [
+        f"{isn(a)} or ({isn(a)} or {isn(b)} or {_use([a, b])})",
+        f"{isn(a)} or {isn(b)} or ({isn(b)} or {isn(a)} or {_use([a, b])})",
+        f"not ({inn(a)} and {inn(b)}) or (not ({inn(b)} and {inn(a)}) or {_use([a, b])})",
+    ]
+    out.extend(("renarrowed", e) for e in renarrowed)
+    out.extend(("nested", e) for e in nested)
+    # ---- forms that narrow nothing or too little: the SDK generators must REPORT, not raise
+    under = [
+        f"not ({isn(a)}) and not ({isn(b)}) and {_use([a, b])}",
+        f"not ({isn(a)} or {isn(b)}) or {_use([a, b])}",
+        f"{isn(a)} or {isn(b)} or {_use([a, b, c])}",
+        f"{inn(a)} and {inn(b)} and {_use([a, b, c])}",
+        f"not ({inn(a)} and {inn(b)}) or {_use([a, b, c])}",
+        f"{_use([a, b])} or {isn(a)} or {isn(b)}",
+        f"({isn(a)} or {isn(b)} or {_use([a, b])}) and {_use([a, b])}",
+        f"{isn(a)} or {isn(b)} or {a}",
+        f"not ({inn(a)} and {b}) or {_use([a, b])}",
+    ]
+    out.extend(("under-narrowed", e) for e in under)
+    return out
+
+
+def narrowing_invariants() -> List[Tuple[str, str]]:
+    """(kind, invariant expression of ``Thing``): the shapes over properties, a member chain, loop variables and indices."""
+    out: List[Tuple[str, str]] = []
+    out.extend(narrowing_shapes(["self.aa", "self.bb", "self.cc", "self.dd"]))
+    out.append(("seed-like", "self.aa is None or self.bb is None or len(self.aa) <= len(self.bb)"))
+    chain = narrowing_shapes(["self.other.xx", "self.other.yy", "self.other.zz", "self.other.ww"])
+    inner_kinds = ("or2", "or3", "or4", "and3", "impl2", "impl3", "impl4", "not-or3", "not-and3", "or-mid3", "and-mid3", "impl-mixed3",
+                   "or-dup2", "impl-dup2", "nested", "renarrowed", "under-narrowed")
+    seen: Dict[str, int] = {}
+    for kind, e in chain:
+        seen[kind] = seen.get(kind, 0) + 1
+        if kind in inner_kinds and (seen[kind] <= 2 or kind == "nested"):
+            out.append(("chain:" + kind, f"self.other is None or ({e})"))
+            if seen[kind] == 1:
+                out.append(("chain-impl:" + kind, f"not (self.other is not None) or ({e})"))
+    loop = narrowing_shapes(["item.xx", "item.yy", "item.zz", "item.ww"])
+    seen = {}
+    for kind, e in loop:
+        seen[kind] = seen.get(kind, 0) + 1
+        if kind in inner_kinds and (seen[kind] <= 2 or kind == "nested"):
+            q = ("all", "any")[(seen[kind] + len(kind)) % 2]
+            out.append((f"{q}:" + kind, f"self.items is None or {q}({e} for item in self.items)"))
+            if seen[kind] == 1:
+                q2 = "any" if q == "all" else "all"
+                out.append((f"{q2}-impl:" + kind, f"not (self.items is not None) or {q2}({e} for item in self.items)"))
+    # guards outside and inside the quantifier, the use needs both
+    out.append(("all:outer+inner", "self.aa is None or self.bb is None or self.items is None or all("
+                "item.xx is None or item.yy is None or len(item.xx) + len(item.yy) + len(self.aa) + len(self.bb) >= 1 for item in self.items)"))
+    out.append(("any:outer+inner", "not (self.aa is not None and self.bb is not None and self.items is not None) or any("
+                "item.xx is not None and item.yy is not None and len(item.xx) + len(item.yy) + len(self.aa) + len(self.bb) >= 1 for item in self.items)"))
+    out.append(("all:outer-and-inner-impl", "not (self.aa is not None and self.items is not None) or all("
+                "not (item.xx is not None and item.yy is not None) or len(item.xx) + len(item.yy) + len(self.aa) >= 1 for item in self.items)"))
+    # nested quantifiers are not in the language of the fixtures; indices are
+    idx = narrowing_shapes(["self.items[i].xx", "self.items[i].yy", "self.items[i].zz", "self.items[i].ww"])
+    seen = {}
+    for kind, e in idx:
+        seen[kind] = seen.get(kind, 0) + 1
+        if kind in ("or2", "or3", "and2", "impl2", "impl3", "not-or2", "or-mid2", "nested") and (seen[kind] <= 1 or (kind == "nested" and seen[kind] <= 6)):
+            out.append(("range:" + kind, f"self.items is None or all({e} for i in range(0, len(self.items)))"))
+    return out
+
+
+def narrowing_functions() -> List[Tuple[str, str]]:
+    """(kind, body expression) of ``@verification def check_it(aa, bb, cc, dd: Optional[str]) -> bool``."""
+    keep = ("or2", "or3", "or4", "and2", "and3", "impl2", "impl3", "impl4", "not-or2", "not-and2", "or-mid3", "and-mid3",
+            "impl-mixed2", "or-dup2", "and-dup2", "impl-dup2", "nested", "renarrowed", "under-narrowed")
+    seen: Dict[str, int] = {}
+    out = []
+    for kind, e in narrowing_shapes(["aa", "bb", "cc", "dd"]):
+        seen[kind] = seen.get(kind, 0) + 1
+        if kind in keep and (seen[kind] <= 2 or kind in ("nested", "under-narrowed")):
+            out.append((kind, e))
+    return out
+
+
+def _invariant(expr: str, i: int) -> str:
+    return f'@invariant(\n    lambda self: {expr},\n    "Invariant {i} holds.",\n)\n'
+
+
+def _narrowing_model(invs: Sequence[str], fns: Sequence[str]) -> str:
+    text = HEADER_MM
+    for i, body in enumerate(fns):
+        text += (
+            f"@verification\ndef check_it_{i}(\n    aa: Optional[str], bb: Optional[str], cc: Optional[str], dd: Optional[str]\n) -> bool:\n"
+            f'    """Check it."""\n    return {body}\n\n\n'
+        )
+    text += _NARROW_ITEM
+    for i, e in reversed(list(enumerate(invs))):
+        text += _invariant(e, i)
+    if fns:
+        text += _invariant(" and ".join(f"check_it_{i}(self.aa, self.bb, self.cc, self.dd)" for i in range(len(fns))), len(invs))
+    return text + _NARROW_THING
+
+
+def narrowing_models(solo: bool, group: int = 6) -> Iterator[Tuple[str, str]]:
+    """
+    (name, text).  Grouped: ``group`` invariants of one kind per model (the quick tier); ``solo``: additionally every
+    expression in a model of its own (thorough tier, search), so that a report of one expression can not hide another.
+    """
+    by_kind: Dict[str, List[str]] = {}
+    for kind, e in narrowing_invariants():
+        by_kind.setdefault(kind, []).append(e)
+    # kinds with few members are merged with their neighbours (same prefix before ':') to keep the number of models low
+    merged: Dict[str, List[str]] = {}
+    for kind, es in by_kind.items():
+        if re.match(r"(under-narrowed|renarrowed|or-dup|and-dup|impl-dup)", kind.split(":")[-1]):
+            key = "reported"   # some of these are reported by the SDK generators: keep them away from the accepted ones
+        elif ":" in kind:
+            key = kind.split(":")[0]
+        elif len(es) < 4:
+            key = re.sub(r"\d+$", "", kind)
+        else:
+            key = kind
+        merged.setdefault(key, []).extend(es)
+    for key, es in merged.items():
+        for at in range(0, len(es), group):
+            yield f"narrow-{key}-{at // group}", _narrowing_model(es[at : at + group], [])
+    fn_by: Dict[str, List[str]] = {}
+    for kind, e in narrowing_functions():
+        fn_by.setdefault("reported" if re.match(r"(under-narrowed|renarrowed|or-dup|and-dup|impl-dup)", kind) else "fn", []).append(e)
+    for key, es in fn_by.items():
+        for at in range(0, len(es), group):
+            yield f"narrow-fn-{key}-{at // group}", _narrowing_model([], es[at : at + group])
+    if solo:
+        for i, (kind, e) in enumerate(narrowing_invariants()):
+            yield f"narrow-solo-{kind}-{i}", _narrowing_model([e], [])
+        for i, (kind, e) in enumerate(narrowing_functions()):
+            yield f"narrow-solo-fn-{kind}-{i}", _narrowing_model([], [e])
+
+
+# --------------------------------------------------------------------------- texts that reach the generated files
+#
+# Descriptions are copied into the documentation comments of every target, string values into string literals,
+# invariant descriptions into the error messages of the generated verification code.  What is written must be
+# encodable and every target escapes differently, so each code-point class below is put at every such site.  The
+# texts are written with ESCAPES in the meta-model source (a lone surrogate can not be stored in a UTF-8 file).
+
+TEXT_CLASSES: List[Tuple[str, str]] = [
+    ("hi-surrogate", "\ud83d"),
+    ("lo-surrogate", "\ude00"),
+    ("reversed-pair", "\ude00\ud83d"),
+    ("surrogate-at-end", "end \udbff"),
+    ("nul", "\x00"),
+    ("c0", "\x01\x08\x1b\x1f"),
+    ("c0-separators", "a\x1cb\x1dc\x1ed"),
+    ("vt-ff", "a\x0bb\x0cc"),
+    ("cr", "a\rb"),
+    ("crlf", "a\r\nb"),
+    ("tab", "a\tb"),
+    ("del", "\x7f"),
+    ("c1-nel", "a\x85b"),
+    ("c1", "\x80\x9f"),
+    ("line-separators", "a\u2028b\u2029c"),
+    ("nonchar-fffe", "\ufffe"),
+    ("nonchar-ffff", "\uffff"),
+    ("nonchar-fdd0", "\ufdd0"),
+    ("bom", "\ufeff"),
+    ("astral", "\U0001F600"),
+    ("astral-last", "\U0010ffff"),
+    ("astral-plane-end", "\U0001fffe"),
+    ("latin1", "\xe4\xff"),
+    ("bmp", "\u65e5\u672c\u20ac"),
+    ("combining", "e\u0301\u200d"),
+    ("bidi", "\u202eabc\u202c"),
+    ("nbsp", "a\xa0b\u3000c"),
+    # docutils refuses lines of more than 10 000 characters in a description
+    ("long-word", "x" * 9900),
+    ("long-line", " ".join(["word"] * 1950)),
+    ("long-astral", "\U0001F600" * 3000),
+    ("long-text", "\n".join(["Some line of a very long paragraph, and so on, and on."] * 400)),
+    ("comment-end", "*/ /* // --> ]]> #"),
+    ("quotes", "\" ' ''' \"\"\""),
+    ("backslash", "\\ \\n \\u0041 \\x41 \\"),
+    ("java-unicode-escape", "\\u000a \\ud83d"),
+    ("braces", "{ } {0} ${x} {@code x} %s %d %%"),
+    ("markup", "<b> & &amp; </summary> <see cref=\"x\"/>"),
+    ("at-sign", "@param x @return @throws"),
+    # ---- RST markup which the description renderers of the targets translate one by one
+    ("rst-literal-backtick", "``a`b``"),
+    ("rst-literal-comment-end", "``*/ --> ]]>``"),
+    ("rst-literal-markup", "``<b>&\\``"),
+    ("rst-literal-nul-surrogate", "``\x00`` and ``\ud83d``"),
+    ("rst-emphasis", "*emphasis* and *more emphasis*"),
+    ("rst-references", ":class:`Thing` and :attr:`Thing.val` and :class:`Kind`"),
+]
+
+#: only at the value sites (docutils limits the length of a line of a description); Java limits a string constant to
+#: 65 535 bytes, C++ compilers limit the length of a literal
+TEXT_VALUE_ONLY_CLASSES: List[Tuple[str, str]] = [
+    ("huge-value", "v" * 70000),
+    ("huge-astral-value", "\U0001F600" * 20000),
+]
+
+#: sites of the descriptions (a docstring / a ``description=`` argument / the message of an invariant)
+TEXT_DESC_SITES = ("module", "class", "property", "enum", "literal", "constant", "constant-set", "invariant", "verification",
+                   "constrained", "method")
+#: sites of the string values
+TEXT_VALUE_SITES = ("enum-value", "str-constant", "set-value", "invariant-literal", "xml-namespace", "version")
+
+
+def text_model(at: Dict[str, str]) -> str:
+    """The meta-model with ``at[site]`` put at that site (other sites get plain ASCII)."""
+    from harness.mm_model import render_str_literal as lit
+
+    def desc(site: str, plain: str) -> str:
+        if site not in at:
+            return lit(plain)
+        return lit(plain[:-1] + " " + at[site] + " and more.")
+
+    def value(site: str, plain: str) -> str:
+        return lit(at[site] if site in at else plain)
+
+    return (
+        desc("module", "Provide a meta-model.") + "\n"
+        + HEADER_MM.replace('"V0.1"', value("version", "V0.1")).replace('"https://example.com/aasv/0/1"', value("xml-namespace", "https://example.com/aasv/0/1"))
+        + f"class Kind(Enum):\n    {desc('enum', 'Represent a kind.')}\n\n    First = {value('enum-value', 'first')}\n"
+        + f"    {desc('literal', 'Represent the first.')}\n\n    Second = \"second\"\n\n\n"
+        + f"@verification\ndef is_thing(text: str) -> bool:\n    {desc('verification', 'Check the text.')}\n"
+        + '    return match(r"^[a-z]+$", text) is not None\n\n\n'
+        + f"@invariant(\n    lambda self: len(self) >= 1,\n    \"It is not empty.\",\n)\n"
+        + f"class Some_str(str, DBC):\n    {desc('constrained', 'Represent a text.')}\n\n\n"
+        + f"@invariant(\n    lambda self: self.val != {value('invariant-literal', 'nothing')},\n    \"Val is something.\",\n)\n"
+        + f"@invariant(\n    lambda self: is_thing(self.val),\n    {desc('invariant', 'Val is a thing.')},\n)\n"
+        + f"class Thing(DBC):\n    {desc('class', 'Represent something.')}\n\n"
+        + f"    val: str\n    {desc('property', 'Some property.')}\n\n"
+        + "    kind: Optional[Kind]\n    \"\"\"Kind of the thing.\"\"\"\n\n"
+        + "    text: Optional[Some_str]\n    \"\"\"Text of the thing.\"\"\"\n\n"
+        + f"    @implementation_specific\n    def do_it(self) -> str:\n        {desc('method', 'Do it.')}\n\n"
+        + "    def __init__(self, val: str, kind: Optional[Kind] = None, text: Optional[Some_str] = None) -> None:\n"
+        + "        self.val = val\n        self.kind = kind\n        self.text = text\n\n\n"
+        + f"Some_text: str = constant_str(\n    value={value('str-constant', 'something')},\n    description={desc('constant', 'Some constant.')},\n)\n\n"
+        + f"Some_texts: Set[str] = constant_set(\n    values=[{value('set-value', 'one')}, \"two\"],\n    description={desc('constant-set', 'Some constants.')},\n)\n"
+    )
+
+
+#: (class, sites) run alone already in the quick tier: a report or a known crash at one site must not hide another site.
+#: Unpaired surrogates make the WRITE of the first file with the text fail, so every description site is run alone;
+#: the other classes only lead to reports (or the known finding C02-F2) through the value sites.
+TEXT_QUICK_SOLO: Dict[str, Tuple[str, ...]] = {
+    "hi-surrogate": TEXT_DESC_SITES + TEXT_VALUE_SITES,
+    "nul": TEXT_VALUE_SITES + ("invariant",),
+    "latin1": TEXT_VALUE_SITES + ("invariant",),
+    "astral": TEXT_VALUE_SITES + ("invariant",),
+    "long-word": TEXT_VALUE_SITES + ("invariant",),
+    "rst-literal-backtick": TEXT_DESC_SITES,
+}
+
+
+def text_models(full: bool) -> Iterator[Tuple[str, str]]:
+    """
+    (name, text).  Per code-point class: all description sites at once, all value sites at once, then every site of
+    ``TEXT_QUICK_SOLO`` (``full``: every site of every class) alone, so that a report or a known crash at one site can
+    not hide another site.
+    """
+    def value_sites(chars: str) -> Tuple[str, ...]:
+        # the XML namespace and the version also go into the SNIPPETS which the harness has to write as UTF-8 files
+        try:
+            chars.encode("utf-8")
+        except UnicodeEncodeError:
+            return tuple(s for s in TEXT_VALUE_SITES if s not in ("xml-namespace", "version"))
+        if '"' in chars or "'" in chars:
+            # the front end refuses quotes in the XML namespace
+            return tuple(s for s in TEXT_VALUE_SITES if s != "xml-namespace")
+        return TEXT_VALUE_SITES
+
+    for cls, chars in TEXT_CLASSES:
+        yield f"text-{cls}-descriptions", text_model({s: chars for s in TEXT_DESC_SITES})
+        yield f"text-{cls}-values", text_model({s: chars for s in value_sites(chars)})
+    for cls, chars in TEXT_VALUE_ONLY_CLASSES:
+        yield f"text-{cls}-values", text_model({s: chars for s in value_sites(chars)})
+        if full:
+            for s in value_sites(chars):
+                yield f"text-{cls}-at-{s}", text_model({s: chars})
+    for cls, chars in TEXT_CLASSES:
+        for s in TEXT_DESC_SITES + value_sites(chars):
+            if full or s in TEXT_QUICK_SOLO.get(cls, ()):
+                yield f"text-{cls}-at-{s}", text_model({s: chars})
+    if full:
+        for cls, chars in TEXT_CLASSES:
+            yield f"text-{cls}-everywhere", text_model({s: chars for s in TEXT_DESC_SITES + value_sites(chars)})
+
+
 def fixture_models() -> List[pathlib.Path]:
     seen = set()
     out = []
@@ -474,6 +910,13 @@ def all_models(ctx: Ctx) -> Iterator[Tuple[str, str, str]]:
         yield name, "edge", text
     # one model, every target, every snippet of the complete set left out once (see run_model / _work)
     yield "specific-model-with-incomplete-snippets", "incomplete-snippets", SPECIFIC_MODEL
+
+
+    deep = ctx.searching or ctx.tier != "quick"
+    for name, text in narrowing_models(solo=deep, group=8):
+        yield name, "narrowing", text
+    for name, text in text_models(full=deep):
+        yield name, "text", text
     yield from random_models(ctx.rng, ctx.n(12, 500), 1 if ctx.tier == "quick" else 8, ctx.n(3, 100))
 
 
@@ -625,6 +1068,39 @@ def _io_calls(block: List[ast.stmt], guarded: bool, acc: Dict[str, List[bool]]) 
                     acc["write"].append(guarded)
 
 
+def _is_generator_call(st: ast.stmt) -> bool:
+    return isinstance(st, ast.Assign) and isinstance(st.value, ast.Call) and ast.unparse(st.value.func) == "generator_func"
+
+
+def _generator_call(lb: List[ast.stmt], rel: str) -> Optional[Tuple[int, ast.stmt]]:
+    """
+    (index in the loop body, the ``code, errors = generator_func()`` statement).  The call may stand alone, or be the
+    only statement of a ``try`` whose every handler turns the exception into an error result of the same step
+    (``code, errors = None, [Error(...)]``) so that the report block which follows handles it like a returned error.
+    """
+    for i, st in enumerate(lb):
+        if _is_generator_call(st):
+            return i, st
+        if isinstance(st, ast.Try) and len(st.body) == 1 and _is_generator_call(st.body[0]):
+            er = _error_result_assign(st.body[0])
+            if er is None or st.orelse or st.finalbody or not st.handlers:
+                raise ExtractError(f"{rel}: line {st.lineno}: unexpected shape of the try around generator_func()")
+            for h in st.handlers:
+                last = h.body[-1] if h.body else None
+                ok = (
+                    isinstance(last, ast.Assign) and len(last.targets) == 1 and isinstance(last.targets[0], ast.Tuple)
+                    and [ast.unparse(e) for e in last.targets[0].elts] == [er[1], er[0]]
+                    and isinstance(last.value, ast.Tuple) and len(last.value.elts) == 2
+                    and isinstance(last.value.elts[0], ast.Constant) and last.value.elts[0].value is None
+                    and isinstance(last.value.elts[1], ast.List) and len(last.value.elts[1].elts) > 0
+                    and not any(isinstance(n, (ast.Return, ast.Continue, ast.Break, ast.Raise)) for b in h.body for n in ast.walk(b))
+                )
+                if not ok:
+                    raise ExtractError(f"{rel}: line {h.lineno}: the handler around generator_func() does not end in `{er[1]}, {er[0]} = None, [<error>]`")
+            return i, st.body[0]
+    return None
+
+
 def generator_skeleton(repo: pathlib.Path, target: str) -> Dict[str, Any]:
     rel = f"aas_core_codegen/{target}/main.py"
     mod = _parse(repo, rel)
@@ -671,13 +1147,11 @@ def generator_skeleton(repo: pathlib.Path, target: str) -> Dict[str, Any]:
         if len(loops) != 1 or ast.unparse(loops[0].iter) != "rel_paths_generators":
             raise ExtractError(f"{rel}: expected exactly one loop over rel_paths_generators")
         lb = loops[0].body
-        at = next(
-            (i for i, st in enumerate(lb) if isinstance(st, ast.Assign) and isinstance(st.value, ast.Call) and ast.unparse(st.value.func) == "generator_func"),
-            None,
-        )
-        if at is None:
+        found = _generator_call(lb, rel)
+        if found is None:
             raise ExtractError(f"{rel}: the loop does not call generator_func()")
-        er = _error_result_assign(lb[at])
+        at, call_stmt = found
+        er = _error_result_assign(call_stmt)
         if er is None:
             raise ExtractError(f"{rel}: the result of generator_func() is not bound to (value, errors)")
         loop_handling = _handling(lb, at, er[0], er[1])
@@ -775,7 +1249,7 @@ class _Stubbed:
         from aas_core_codegen.common import Error, LinenoColumner, Stripped
 
         sk = self.sk
-        state = {"check": 0, "step": 0, "pending": None, "current": None}
+        state = {"check": 0, "step": 0, "pending": None, "current": None, "encode": None}
         patches: List[Tuple[Any, str, Any]] = []
 
         def patch(obj: Any, name: str, new: Any) -> None:
@@ -802,10 +1276,15 @@ class _Stubbed:
                 state["current"] = i
                 o = outs.get(i, "ok")
                 state["pending"] = o if o in ("mkdir", "write") else None
+                # "encode": the step succeeds, but its text holds an unpaired surrogate: the REAL write_text raises
+                # UnicodeEncodeError (a ValueError, not an OSError); for the model that is a failed write of this step
+                body = "stub \ud83d\n" if o == "encode" else "stub\n"
+                if o == "encode":
+                    state["encode"] = i
                 if self.target == "java":
-                    value: Any = [self.main.java_common.JavaFile(f"Stub{i}.java", "// stub\n")]
+                    value: Any = [self.main.java_common.JavaFile(f"Stub{i}.java", "// " + body)]
                 else:
-                    value = "stub\n"
+                    value = body
                 if not fallible:
                     return value
                 if o == "err":
@@ -882,12 +1361,16 @@ class _Stubbed:
         if rc == 1 and len(set(marks)) == 1:
             kind = {"CHECK": "check", "STEP": "generate", "MKDIR": "mkdir", "WRITE": "write"}[marks[0][0]]
             return f"exit1 {kind} {marks[0][1]}"
+        if rc == 1 and not marks and state["encode"] is not None and state["encode"] == state["current"] and "surrogates not allowed" in err:
+            # the report of the real UnicodeEncodeError carries no marker: the run stops at the first failure, so the
+            # step is the one called last
+            return f"exit1 write {state['encode']}"
         return f"odd rc={rc} stderr={err[:160]!r}"
 
 
 def _wire(failed: Sequence[int], outs: Dict[int, str]) -> str:
     f = ",".join(str(i) for i in sorted(failed)) or "-"
-    o = ",".join(f"{i}:{k}" for i, k in sorted(outs.items())) or "-"
+    o = ",".join(f"{i}:{'write' if k == 'encode' else k}" for i, k in sorted(outs.items())) or "-"
     return f"{f} {o}"
 
 
@@ -907,7 +1390,7 @@ def correspond(ctx: Ctx) -> None:
         expected_shape = f"{nc} {ns} " + (",".join(map(str, fall)) or "-")
         if shape != expected_shape:
             ctx.disagree("shape", target, expected_shape, shape)
-        kinds = ["err", "write"] + (["mkdir"] if sk["mkdirs"] > 0 else [])
+        kinds = ["err", "write", "encode"] + (["mkdir"] if sk["mkdirs"] > 0 else [])
         cases: List[Tuple[str, List[int], Dict[int, str]]] = [("enumerated", [], {})]
         # seed-independent: every single failure of every check and of every step, in each way
         for i in range(nc):
@@ -934,7 +1417,7 @@ def correspond(ctx: Ctx) -> None:
                 ctx.disagree(f"stub-{stream}", {"target": target, "failed_checks": f, "step_outcomes": {str(k): v for k, v in o.items()}}, impl, model)
             # the direct oracle on this input (independent of the model): a crash or a dropped error of the plumbing
             # violates C02 itself
-            any_err = any(i < nc for i in f) or any(k in ("write", "mkdir") or sk["steps"][i]["fallible"] for i, k in o.items())
+            any_err = any(i < nc for i in f) or any(k in ("write", "encode", "mkdir") or sk["steps"][i]["fallible"] for i, k in o.items())
             if impl.startswith("crash") or impl.startswith("odd") or (impl == "exit0" and any_err) or (impl.startswith("exit1") and not any_err):
                 sig = f"C02:plumbing:{target}:{impl.split(' ')[0]}"
                 if sum(1 for x in ctx.failures if x["sig"] == sig) < 2:
